@@ -37,7 +37,7 @@ ASSUMPTIONS = [
     "numba, numpy, moptipy are trusted",
     "seeded search: a clean batch is evidence, not proof",
 ]
-FAULT_KINDS = ["scribble_dest:extreme", "scribble_dest:other_packing",
+FAULT_KINDS = ["decode_wrong_multiset", "scribble_dest:extreme", "scribble_dest:other_packing",
                "scribble_dest:blocking", "scribble_dest:random",
                "scribble_scratch:extreme", "scribble_scratch:inverted",
                "scribble_scratch:wide", "scribble_scratch:random",
@@ -118,6 +118,16 @@ def generate(rng: random.Random, batch: dict) -> dict:
                 if pool > 1:
                     ops.append({"op": "swap_dest"})
                 continue
+            if kind == "decode_wrong_multiset":
+                # a caller hands over ids with wrong multiplicities (same
+                # length, valid ids): whatever that call does, later
+                # decodings of valid permutations must be unaffected
+                nt = len(items)
+                tot = sum(it[2] for it in items)
+                bad = [rng.randint(1, nt) * rng.choice([1, -1])
+                       for _ in range(tot)]
+                ops.append({"op": "decode_bad", "x": bad})
+                continue
             what, _, sub = kind.partition(":")
             if what == "scribble_scratch" and encoder == 1:
                 continue
@@ -145,7 +155,9 @@ def directed(tier: str) -> list:
             {"op": "decode", "x": xx[::-1], "how": "fresh"},
             {"op": "scribble_dest", "kind": "other_packing", "vals_seed": 3},
             {"op": "scribble_scratch", "kind": "inverted", "vals_seed": 4},
-            {"op": "decode", "x": xx, "how": "again"}]})
+            {"op": "decode", "x": xx, "how": "again"},
+            {"op": "decode_bad", "x": [1, 1, 1, 1, 1, 1, 1, -1, 2, 2]},
+            {"op": "decode", "x": xx[::-1], "how": "again"}]})
     # item fits only rotated
     docs.append({"inst": {"W": 8, "H": 3, "items": [[3, 8, 2], [1, 1, 3]]},
                  "encoder": 2, "pool": 2, "ops": [
@@ -303,11 +315,38 @@ def execute(doc: dict) -> dict:
             dirty = f"scratch:{sub}"
             just_scribbled = True
             continue
+        if kind == "decode_bad":
+            # always exactly n_items valid ids (shrunk documents included):
+            # the kernels are compiled without bounds checks
+            raw = [int(v) for v in op["x"]][:n_items]
+            raw += [1] * (n_items - len(raw))
+            raw = [(1 + (abs(v) - 1) % len(items)) * (1 if v >= 0 else -1)
+                   if v != 0 else 1 for v in raw]
+            xb = np.array(raw, dtype=xdtype)
+            try:
+                enc.decode(xb, dests[cur])
+                outcome = "returned"
+            except Exception as exc:  # noqa: BLE001
+                outcome = type(exc).__name__
+            core.bump(res["faults"], "decode_wrong_multiset")
+            res["events"].append(["decode_bad", cur, outcome])
+            dirty = "after_bad_call"
+            just_scribbled = True
+            continue
         # ---- decode
         xl = [int(v) for v in op["x"]]
         x = np.array(xl, dtype=xdtype)
         y = dests[cur]
-        enc.decode(x, y)
+        try:
+            enc.decode(x, y)
+        except Exception as exc:  # noqa: BLE001
+            core.violation(
+                res, "decode-raised",
+                f"encoder {encoder_id}, W={W}, H={H}, items={items}: decode "
+                f"of the valid permutation {xl} raised "
+                f"{type(exc).__name__}: {exc}; dirty={dirty}",
+                encoder=encoder_id, dirty=dirty)
+            break
         res["ops"] += 1
         got = [[int(v) for v in row] for row in y]
         got_n = y.n_bins
@@ -386,7 +425,7 @@ def reductions(doc: dict):
             new_items = items[:t] + items[t + 1:]
             new_ops = []
             for o in ops:
-                if o["op"] != "decode":
+                if o["op"] not in ("decode", "decode_bad"):
                     new_ops.append(o)
                     continue
                 nx = []
